@@ -150,9 +150,34 @@ def run(ctx):
         for bi, s, op, a, b_ in binops(b):
             if op.startswith('Add') and any(o[0] == 'k' and ('1_' in o[1]) for o in (a, b_)):
                 plus1 = True
-    ctx.ob('R06.5', 'restore_job|instance+1', plus1, 'the restored next instance id is computed as last seen + 1', rj.loc())
     ins = [bi for bi, t, c in rj.calls() if c in HASH_INSERT and bi in rj.reachable()
            and 'adjust_instance_id_and_crash_counters' in __import__('hqrules.templates', fromlist=['x']).local_field_sources(rj, op_local(t['args'][0]))]
+    # ... and that sum is what is written into the adjust map (not merely some +1 elsewhere in the function)
+    feeds = False
+    LFS = __import__('hqrules.templates', fromlist=['x']).local_field_sources
+    for bi in ins:
+        vl = op_local(rj.term[bi]['args'][2]) if len(rj.term[bi]['args']) > 2 else None
+        srcs = rj.derived_from(vl, through_mutation=False) if vl is not None else set()
+        # (1) the sum is computed in restore_job itself from the recorded instance id
+        for bj, s_, op, a, b_ in binops(rj):
+            if op.startswith('Add') and any(o[0] == 'k' and ('1_' in o[1]) for o in (a, b_)) and s_['p'][0] in srcs:
+                if any(op_local(o) is not None and 'instance_id' in LFS(rj, op_local(o), through_mutation=False) for o in (a, b_)):
+                    feeds = True
+        # (2) ... or in a closure mapped over the recorded instance id (`task.instance_id.map(|x| x.as_num() + 1)`)
+        for bj, t_, c_ in rj.calls():
+            if bj in rj.reachable() and (c_ or '').endswith(('Option::map', 'Option::map_or', 'Option::and_then')) and t_['d'][0] in srcs:
+                recv = op_local(t_['args'][0])
+                if recv is None or 'instance_id' not in LFS(rj, recv, through_mutation=False):
+                    continue
+                for a_ in t_['args'][1:]:
+                    la = op_local(a_)
+                    for x in (rj.derived_from(la, through_mutation=False) if la is not None else ()):
+                        for d in rj.defs().get(x, ()):
+                            if d[1] == 'a' and d[2]['rv'][0] == 'agg' and d[2]['rv'][1][0] == 'closure':
+                                cb_ = prog.bodies.get(norm(d[2]['rv'][1][1]))
+                                if cb_ is not None and any(op.startswith('Add') and any(o[0] == 'k' and ('1_' in o[1]) for o in (a2, b2)) for bk, s2, op, a2, b2 in binops(cb_)):
+                                    feeds = True
+    ctx.ob('R06.5', 'restore_job|instance+1', plus1 and feeds, 'the restored next instance id is computed as last seen + 1 and that value is what goes into the adjust map', rj.loc(ins[0]) if ins else rj.loc())
     ctx.ob('R06.5', 'restore_job|adjust insert', bool(ins), 'restore_job fills adjust_instance_id_and_crash_counters', rj.loc(ins[0]) if ins else rj.loc())
     if ins:
         gt = [(bi, s_) for bi, s_, op, a, c in binops(rj) if op in ('Gt', 'Ne') and 'crash_counter' in (operand_fields(rj, a) | operand_fields(rj, c))]
